@@ -407,6 +407,27 @@ unsafe fn dispose_general_node<T: RcObject>(
     // old enough, `modu.le` may return false.
     if depth == 0 || modu.le(node_epoch as _, curr_epoch as isize - 3) {
         // The current node is immediately reclaimable.
+        if depth > 0 {
+            // A node reclaimed by the cascade stands in for its pending destruction attempt: like
+            // `try_destruct` it has to publish DESTRUCTED by a CAS that observes a zero count, so
+            // that `upgrade` fails from now on. If a reference has been created in the meantime
+            // (the count is no longer zero), the protocol of `try_destruct` takes over.
+            vy!(130, ptr, state.as_raw());
+            if state.strong() != 0
+                || rc
+                    .state
+                    .compare_exchange(
+                        state.as_raw(),
+                        state.with_destructed(true).as_raw(),
+                        Ordering::SeqCst,
+                        Ordering::SeqCst,
+                    )
+                    .is_err()
+            {
+                vy!(1130, ptr, 0);
+                return RcInner::try_destruct(rc);
+            }
+        }
         vy!(1101, ptr, depth);
         rc.data_mut().pop_edges(&mut outgoings);
         unsafe {
